@@ -21,6 +21,7 @@ mod seqrun;
 mod sim;
 mod sym;
 mod util;
+mod vseed;
 
 use serde_json::json;
 use util::*;
@@ -171,6 +172,14 @@ fn main() {
             }
             seqrun::random(&mut run, &bindir.join("alpha-g-sequencer"), &work, args.num("seed", 1), args.num("n", 100));
             seqrun::odb(&mut run, &bindir.join("alpha-g-odb"), &work, args.num("seed", 1), args.num("nodb", 40));
+            run.finish();
+        }
+        "vseed" => {
+            let mut run = Runner::new(&args);
+            if let Some(p) = args.get("in") {
+                vseed::replay(&mut run, p, args.num("seed", 1), args.num("stride", 1) as usize);
+            }
+            vseed::random(&mut run, args.num("seed", 1), args.num("n", 500));
             run.finish();
         }
         "names" => {
